@@ -61,7 +61,8 @@ impl<I: SendmsgSyscall> SendmsgSyscall for NioSendmsgSyscall<I> {
         let mut r = 0;
         let mut index = 0;
         for iovec in &vec {
-            let mut offset = sent.saturating_sub(length);
+            let stage = length;
+            let mut offset = sent.saturating_sub(stage);
             length += iovec.iov_len;
             if sent > length {
                 index += 1;
@@ -71,25 +72,16 @@ impl<I: SendmsgSyscall> SendmsgSyscall for NioSendmsgSyscall<I> {
             for i in vec.iter().skip(index) {
                 iov.push(*i);
             }
-            cfg_if::cfg_if! {
-                if #[cfg(any(
-                    target_os = "linux",
-                    target_os = "l4re",
-                    target_os = "android",
-                    target_os = "emscripten"
-                ))] {
-                    let msg_iovlen = vec.len();
-                } else {
-                    let msg_iovlen = c_int::try_from(iov.len()).unwrap_or_else(|_| {
-                        panic!("{} msghdr.msg_iovlen overflow", crate::common::constants::SyscallName::recvmsg)
-                    });
-                }
-            }
+            // the element count always describes the rebuilt array that is passed down
+            let msg_iovlen = iov.len().try_into().unwrap_or_else(|_| {
+                panic!("{} msghdr.msg_iovlen overflow", crate::common::constants::SyscallName::sendmsg)
+            });
             while sent < length && left_time > 0 {
                 if 0 != offset {
+                    // `offset` counts from the start of the caller's current iovec
                     iov[0] = libc::iovec {
-                        iov_base: (iov[0].iov_base as usize + offset) as *mut c_void,
-                        iov_len: iov[0].iov_len - offset,
+                        iov_base: (iovec.iov_base as usize + offset) as *mut c_void,
+                        iov_len: iovec.iov_len - offset,
                     };
                 }
                 let arg = msghdr {
@@ -109,7 +101,7 @@ impl<I: SendmsgSyscall> SendmsgSyscall for NioSendmsgSyscall<I> {
                         r = sent.try_into().expect("sent overflow");
                         break;
                     }
-                    offset = sent.saturating_sub(length);
+                    offset = sent.saturating_sub(stage);
                 }
                 let error_kind = Error::last_os_error().kind();
                 if error_kind == ErrorKind::WouldBlock {
@@ -120,6 +112,9 @@ impl<I: SendmsgSyscall> SendmsgSyscall for NioSendmsgSyscall<I> {
                     let wait_time = std::time::Duration::from_nanos(left_time)
                         .min(crate::common::constants::SLICE);
                     if EventLoops::wait_write_event(fd, Some(wait_time)).is_err() {
+                        if sent > 0 {
+                            r = sent.try_into().expect("sent overflow");
+                        }
                         std::mem::forget(vec);
                         if blocking {
                             set_blocking(fd);
@@ -127,6 +122,10 @@ impl<I: SendmsgSyscall> SendmsgSyscall for NioSendmsgSyscall<I> {
                         return r;
                     }
                 } else if error_kind != ErrorKind::Interrupted {
+                    // report what was transferred so far, the error only if nothing was
+                    if sent > 0 {
+                        r = sent.try_into().expect("sent overflow");
+                    }
                     std::mem::forget(vec);
                     if blocking {
                         set_blocking(fd);
@@ -137,6 +136,9 @@ impl<I: SendmsgSyscall> SendmsgSyscall for NioSendmsgSyscall<I> {
             if sent >= length {
                 index += 1;
             }
+        }
+        if sent > 0 {
+            r = sent.try_into().expect("sent overflow");
         }
         std::mem::forget(vec);
         if blocking {
